@@ -14,7 +14,7 @@
 From Coq Require Import List String Bool Ascii.
 From KV Require Import LockDiscipline LockDisciplineProofs.
 From KV.gen Require Import Locks.
-From KV.gen Require LockLeaks.
+From KV.gen Require LockLeaks NilChecks.
 Import ListNotations.
 Open Scope string_scope.
 
@@ -88,4 +88,21 @@ Definition repl_lock_exits : list (string * string * string * string) :=
   filter (fun r => match r with (p, _, _, _) => String.eqb p "pkg/replication" end) LockLeaks.lock_leaks.
 
 Lemma repl_locks_released_exactly_once : repl_lock_exits = [].
+Proof. vm_compute. reflexivity. Qed.
+
+(* look-up functions (one pointer result, nil for "not there": Primary.getSession answers nil for a
+   session that was removed between two look-ups of one handler) and the uses of their results
+   before a comparison with nil (gen/NilChecks.v, gofacts/nilchecks.go): none in pkg/replication.
+   A handler that dereferences the nil answer panics, grpc-go does not recover handler panics, the
+   primary process ends: a replica failing the primary. *)
+Definition repl_nil_unchecked : list (string * string * string * string) :=
+  filter (fun r => match r with (p, _, _, _) => String.eqb p "pkg/replication" end) NilChecks.nil_unchecked.
+
+Lemma repl_lookups_tested_before_use : repl_nil_unchecked = [].
+Proof. vm_compute. reflexivity. Qed.
+
+(* non-vacuity: the session look-up is among the functions the translator follows *)
+Example repl_lookups_nonvacuous :
+  existsb (fun r => String.eqb (fst r) "pkg/replication" && String.eqb (snd r) "Primary.getSession")
+          NilChecks.lookup_functions = true.
 Proof. vm_compute. reflexivity. Qed.
